@@ -1,7 +1,10 @@
 (* C12 - executable checkers evaluated on the harness' case files.
-   case = (component, configuration, trace); trace entry = (opcode, args, obs):
-   obs = container sizes returned by the hooks of the REAL component after the
-   operation ([] = not sampled); opcode 99 = end of a phase (no operation).
+   case = (component, configuration, flat trace). The flat trace is a list of
+   integers: opcode, #args, args..., #obs, obs...; obs = container sizes
+   returned by the hooks of the REAL component after the operation (none = not
+   sampled). Opcode 99 = end of a phase (no operation). Opcode 90 = a run of
+   `count` opcode-1 operations, args [count; m; a0; d0; a1; d1; ...]: the i-th
+   operation has arguments (a_j + i * d_j), reduced mod m when m > 0 and d_j <> 0.
    c12_mismatches     : model sizes <> implementation sizes (correspondence)
    c12_spec_failures  : specification oracle on the implementation's sizes only
                         (never above the bound; no growth between successive
@@ -11,7 +14,40 @@ Open Scope Z_scope.
 
 Definition entry := (Z * list Z * list Z)%type.
 Definition trace := list entry.
-Definition c12case := (Z * list Z * trace)%type.
+Definition c12case := (Z * list Z * list Z)%type.
+
+Fixpoint decode (fuel : nat) (l : list Z) : trace :=
+  match fuel with
+  | O => []
+  | S f =>
+    match l with
+    | op :: na :: r =>
+        let args := firstn (Z.to_nat na) r in
+        match skipn (Z.to_nat na) r with
+        | no :: r2 => (op, args, firstn (Z.to_nat no) r2) :: decode f (skipn (Z.to_nat no) r2)
+        | [] => [(op, args, [])]
+        end
+    | _ => []
+    end
+  end.
+
+(* arguments of the i-th operation of a run *)
+Fixpoint run_args (m i : Z) (l : list Z) : list Z :=
+  match l with
+  | a :: d :: t => (if (m >? 0) && negb (d =? 0) then (a + i * d) mod m else a + i * d) :: run_args m i t
+  | _ => []
+  end.
+(* apply `f st 1 args_i` for i = i0 .. i0 + n - 1 *)
+Fixpoint iter_run {S} (f : S -> Z -> list Z -> S) (m : Z) (l : list Z) (n : nat) (i : Z) (st : S) : S :=
+  match n with O => st | S k => iter_run f m l k (i + 1) (f st 1 (run_args m i l)) end.
+Definition apply_op {S} (f : S -> Z -> list Z -> S) (st : S) (opc : Z) (args : list Z) : S :=
+  if opc =? 99 then st
+  else if opc =? 90 then
+    match args with
+    | count :: m :: l => iter_run f m l (Z.to_nat count) 0 st
+    | _ => st
+    end
+  else f st opc args.
 
 Definition arg (n : nat) (l : list Z) : Z := nth n l 0.
 Definition argb (n : nat) (l : list Z) : bool := negb (nth n l 0 =? 0).
@@ -21,7 +57,7 @@ Fixpoint run_cmp {S} (step : S -> Z -> list Z -> S) (sizes : S -> list Z) (st : 
   match tr with
   | [] => true
   | (opc, args, obs) :: t =>
-      let st' := if opc =? 99 then st else step st opc args in
+      let st' := apply_op step st opc args in
       (match obs with [] => true | _ => list_eqb Z.eqb (sizes st') obs end) && run_cmp step sizes st' t
   end.
 
@@ -68,12 +104,13 @@ Fixpoint run_rc (window : Z) (st : bool * list Z) (tr : trace) : bool :=
   match tr with
   | [] => true
   | (opc, args, obs) :: t =>
-      let st' := if opc =? 99 then st else rc_step window st (arg 0 args) in
+      let st' := apply_op (fun s _ a => rc_step window s (arg 0 a)) st opc args in
       (match obs with [] => true | r :: _ => Z.abs (rc_rate st' - r) <=? 1 end) && run_rc window st' t
   end.
 
 Definition model_ok (c : c12case) : bool :=
-  let '(comp, cfg, tr) := c in
+  let '(comp, cfg, flat) := c in
+  let tr := decode (length flat) flat in
   if comp =? 1 then run_cmp (fun w _ a => rl_step w (arg 0 a)) (fun w => [w]) (rl_init (arg 0 cfg)) tr
   else if comp =? 2 then run_cmp (fun w _ a => rs_step w (arg 0 a)) (fun w => [w]) rs_init tr
   else if comp =? 3 then run_cmp (fun st _ a => rb_add st (arg 0 a)) rb_sizes (rb_init (arg 0 cfg)) tr
@@ -100,7 +137,7 @@ Fixpoint spec_fold {A} (upd : A -> Z -> list Z -> A) (ok : A -> list Z -> Z) (a 
   match tr with
   | [] => 0
   | (opc, args, obs) :: t =>
-      let a' := if opc =? 99 then a else upd a opc args in
+      let a' := apply_op upd a opc args in
       let r := match obs with [] => 0 | _ => ok a' obs end in
       if r =? 0 then spec_fold upd ok a' t else r
   end.
@@ -123,7 +160,8 @@ Definition set_upd (bind unbind : Z) (s : list Z) (opc : Z) (a : list Z) : list 
   if opc =? bind then addset (arg 0 a) s else if opc =? unbind then delset (arg 0 a) s else s.
 
 Definition spec_code (c : c12case) : Z :=
-  let '(comp, cfg, tr) := c in
+  let '(comp, cfg, flat) := c in
+  let tr := decode (length flat) flat in
   let bound_code :=
     if comp =? 1 then spec_fold (fun (u : unit) _ _ => u) (fun _ o => bool_code (list_eqb Z.eqb o [arg 0 cfg / 64]) 101) tt tr
     else if comp =? 2 then spec_fold (fun (u : unit) _ _ => u) (fun _ o => bool_code (list_eqb Z.eqb o [128]) 201) tt tr
@@ -167,7 +205,7 @@ Definition spec_code (c : c12case) : Z :=
                             else bool_code ((arg 1 o <=? arg 0 o) && (arg 2 o <=? arg 0 o)) 1505) 0 tr
     else 9999 in
   if negb (bound_code =? 0) then bound_code
-  else if negb (comp =? 12) && grows3 (marks tr) then
+  else if negb (comp =? 12) && grows3 (if comp =? 5 then map (firstn 1) (marks tr) else marks tr) then
     if (comp =? 13) || (comp =? 14) then (if arg 0 cfg =? 1 then 100 * comp + 4 else 100 * comp + 2)
     else if comp =? 15 then (if has_op 2 tr || has_op 3 tr then 1503 else 1502)
     else 100 * comp + 2
